@@ -199,6 +199,21 @@ func (s *Session) SetModuleState(moduleName string, state any) {
 	s.moduleStates[moduleName] = state
 }
 
+// ModuleStateOrSet returns the state registered for the module. When there is
+// none yet, the one built by newState is registered first: participants whose
+// joins overlap all end up with the same state.
+func (s *Session) ModuleStateOrSet(moduleName string, newState func() any) any {
+	s.moduleMutex.Lock()
+	defer s.moduleMutex.Unlock()
+
+	state, ok := s.moduleStates[moduleName]
+	if !ok {
+		state = newState()
+		s.moduleStates[moduleName] = state
+	}
+	return state
+}
+
 func (s *Session) ModuleState(moduleName string) (any, bool) {
 	s.moduleMutex.RLock()
 	defer s.moduleMutex.RUnlock()
